@@ -54,6 +54,8 @@ type c14Input struct {
 	// Nested marks programs in which an effectful call is an argument of another effectful call; the
 	// per-call yield then precedes both effects and the between-effects rule does not apply.
 	Nested bool `json:"nested,omitempty"`
+	// MinYields: the uninterrupted run hands control to the yielder at least this often (one per loop iteration / call of the program)
+	MinYields int `json:"min_yields,omitempty"`
 }
 
 func c14Specials() []c14Input {
@@ -83,6 +85,11 @@ func c14Specials() []c14Input {
 			"    x = (n)\n    print x\n    a[(n)] = 5\n    print a\n    a[0] = (n)\n    print a\n    m.k = (n)\n    print m\n    m[(sprint (n))] = 1\n    print m\n" +
 			"    if (n) == 2\n        print \"if\"\n    end\n    if (n) == 3\n        print \"no\"\n    else if (n) == 2\n        print \"elif\"\n    end\n    for i := range (n)\n        print \"i\" i\n    end\n" +
 			"    for i := range 1 (n)\n        print \"j\" i\n    end\n    for i := range 0 4 (n)\n        print \"k\" i\n    end\n    for e := range a[:(n)]\n        print e\n    end\n    y := s[:(n)]\n    print y\nend\n", Nested: true},
+		// one yield per loop iteration and per call even when the body has no statement that yields by itself
+		{Src: "for range 200\n    // nothing to do\nend\nprint \"done\"\n", MinYields: 200},
+		{Src: "for i := range 150\n\n    // only comments\n\nend\nfor c := range \"abcdefghij\"\n    // c\nend\nfor e := range [1 2 3 4 5]\n    // e\nend\nfor k := range {a:1 b:2 c:3}\n    // k\nend\nprint \"done\"\n", MinYields: 150 + 10 + 5 + 3},
+		{Src: "func f\n    // empty\nend\nfunc g:num\n    return 1\nend\nn := 0\nwhile n < 100\n    f\n    n = n + (g)\nend\nprint n\n", MinYields: 300},
+		{Src: "x := 0\nfor i := range 100\n    if i < 0\n        x = 1\n    end\nend\nfor i := range 100\n    if i >= 0\n        // taken, empty\n    else\n        x = 2\n    end\nend\nprint x\n", MinYields: 200},
 		mk("cnt := 0\nprint \"top\"\non key k:string\n    cnt = cnt + 1\n    for i := range 3\n        print k cnt i\n    end\nend\n",
 			c15Event{"key", []any{"a"}}, c15Event{"key", []any{"b"}}),
 		mk("print \"top\"\non animate\n    while true\n        print \"tick\"\n    end\nend\n", c15Event{"animate", []any{16.0}}),
@@ -169,6 +176,9 @@ func checkC14(w *fw.Worker, in c14Input) *fw.Violation {
 		if endless {
 			w.Count("endless-programs", 1)
 		}
+	}
+	if in.MinYields > 0 && base.Yields < in.MinYields {
+		return viol("too-few-yields", "the evaluator handed control to the yielder less often than once per loop iteration / call", fmt.Sprint(">= ", in.MinYields), fmt.Sprint(base.Yields), 0)
 	}
 	// (i) at least one yield between consecutive effects (each effect is produced by its own call)
 	E := base.Trace
